@@ -20,7 +20,7 @@ func init() {
 			"its modifier constrains. R2 (COV): every field the option loaders write is read by some check reachable from Match. R3 (TYPESTATE): slices that are binary-searched / merge-scanned are sorted by every path that fills them. " +
 			"R4: the five include/exclude checks have the table 'not excluded and (no include list or included)', membership loops summarised as 'exists'. R5: domain membership requires equality or a suffix at a label boundary; the wildcard-TLD branch requires " +
 			"the public-suffix conditions. R6: $denyallow polarity and the IP exemption (only for a hostname request whose host parses as an address). R7: hostname requests match the hostname on the true edge of the target selector, URLs otherwise. " +
-			"R8: membership scans of $client are complete (no early exit except on a hit). R10: the include and the exclude word of content types are each only ever or-ed into (the documented forcing to the document type aside). R3 also: every field that some function of the library binary-searches is sorted by the function that stores it or by the loader it comes from. R12: $client values become entries as written. R13: a loop of package rules that copies the bytes of a string does not take its index from a range over that string. R5 also: the scan over the values of a domain list answers 'no' only once the list is exhausted. R10 also: whether a content type is or-ed into its word does not depend on what the words already hold. R1 resolves a check that is gone to the method Match calls that reads the same fields, and accepts the shortcut test written out in Match.",
+			"R8: membership scans of $client are complete (no early exit except on a hit). R10: the include and the exclude word of content types are each only ever or-ed into (the documented forcing to the document type aside). R3 also: every field that some function of the library binary-searches is sorted by the function that stores it or by the loader it comes from. R12: $client values become entries as written. R13: a loop of package rules that copies the bytes of a string does not take its index from a range over that string. R5 also: the scan over the values of a domain list answers 'no' only once the list is exhausted. R10 also: whether a content type is or-ed into its word does not depend on what the words already hold. R1 resolves a check that is gone to the method Match calls that reads the same fields, and accepts the shortcut test written out in Match. R14: the test for URL-only patterns (found by its test of the \"://\" prefix, wherever it lives) checks exactly the four documented prefixes, and the stay-condition of its scan over the inside of a '/name.' pattern, evaluated on all 256 byte values, is the class [A-Za-z0-9.-].",
 		Trusted: []string{"publicsuffix, netip.Prefix.Contains, slices.BinarySearch (library)", "the heuristic of shouldMatchHostname and the pattern language (C03) are not judged here"},
 	})
 }
